@@ -244,7 +244,17 @@ def run(sched):
         path = wire.opts(m, wire.URI_PATH)
         if len(path) == 2 and path[0] == b"h" and path[1].isdigit():
             h = int(path[1])
-        ev("rx", r=r, q=q, loc=loc, h=h, **f)
+        x = ""
+        if f["cls"] == "req":
+            plan = sched.get("handlers", {}).get(str(h)) if h else None
+            names = {1: "GET", 2: "POST", 3: "PUT", 4: "DELETE", 5: "FETCH", 6: "PATCH", 7: "IPATCH"}
+            if sched.get("nosite"):
+                x = "nosite"
+            elif plan is None:
+                x = "nopath"
+            elif names.get(f["code"]) not in plan.get("methods", list(names.values())):
+                x = "unimpl"
+        ev("rx", r=r, q=q, loc=loc, h=h, x=x, **f)
 
     w.net.on_sent = on_sent
 
